@@ -64,6 +64,9 @@ type CallSite struct {
 	Extern  string        // qualified name of an external static callee
 	Dynamic bool
 	Targets []*ssa.Function // resolved targets of a dynamic call
+	// ViaParam >= 0: the call goes through a function value that is this parameter of the enclosing function; what
+	// it does is attributed at the enclosing function's call sites, where the value passed is known
+	ViaParam int
 }
 
 type FuncEffects struct {
@@ -74,6 +77,8 @@ type FuncEffects struct {
 	Undecided    []string
 	ReturnsFresh bool
 	retRoots     []Root
+	// ParamCalls: parameters (function-typed) the function calls through
+	ParamCalls map[int]bool
 }
 
 // ExternEffect describes what a function outside the module may write.
@@ -562,7 +567,7 @@ func (ef *Effects) direct(fn *ssa.Function) {
 					}
 					continue
 				}
-				cs := CallSite{Instr: x}
+				cs := CallSite{Instr: x, ViaParam: -1}
 				if callee := cc.StaticCallee(); callee != nil {
 					if o := callee.Origin(); o != nil && ef.Funcs[o] != nil {
 						callee = o // an instance of a generic function of the module: use the generic body
@@ -574,7 +579,17 @@ func (ef *Effects) direct(fn *ssa.Function) {
 					}
 				} else {
 					cs.Dynamic = true
-					cs.Targets = ef.dynamicTargets(cc)
+					if pv, ok := cc.Value.(*ssa.Parameter); ok && !cc.IsInvoke() && fn.Object() != nil && !fn.Object().Exported() {
+						// an unexported helper calling the function it is handed: judged where it is called
+						for i, q := range fn.Params {
+							if q == pv {
+								cs.ViaParam = i
+							}
+						}
+					}
+					if cs.ViaParam < 0 {
+						cs.Targets = ef.dynamicTargets(cc)
+					}
 				}
 				fe.Calls = append(fe.Calls, cs)
 			}
@@ -628,6 +643,11 @@ func (ef *Effects) dynamicTargets(cc *ssa.CallCommon) []*ssa.Function {
 	var out []*ssa.Function
 	for _, fn := range ef.All {
 		if fn.Signature.Recv() != nil {
+			// a method value (x.M passed as a function): the function type is the method's without its receiver
+			ms := fn.Signature
+			if types.Identical(types.NewSignatureType(nil, nil, nil, ms.Params(), ms.Results(), ms.Variadic()), sig) {
+				out = append(out, fn)
+			}
 			continue
 		}
 		if types.Identical(fn.Signature, sig) {
@@ -703,6 +723,99 @@ func (ef *Effects) propagate(fn *ssa.Function) bool {
 			for _, u := range ce.Undecided {
 				addUndec(u + " (via " + cs.Callee.String() + ")")
 			}
+			// the callee calls a function value it is handed: attribute what that function does, here, where it is known
+			if len(ce.ParamCalls) > 0 {
+				args := callArgs(cs.Instr)
+				for pi := range ce.ParamCalls {
+					if pi >= len(args) {
+						addUndec("call of " + cs.Callee.String() + ": function-valued argument not found")
+						continue
+					}
+					switch a := args[pi].(type) {
+					case *ssa.Parameter:
+						// handed on: judged at this function's own call sites
+						for i, q := range fn.Params {
+							if q == a && fn.Object() != nil && !fn.Object().Exported() {
+								if fe.ParamCalls == nil {
+									fe.ParamCalls = map[int]bool{}
+								}
+								if !fe.ParamCalls[i] {
+									fe.ParamCalls[i] = true
+									changed = true
+								}
+								a = nil
+							}
+						}
+						if a != nil {
+							addUndec("a function value of unknown origin is handed to " + cs.Callee.String() + ", which calls it")
+						}
+					case *ssa.MakeClosure:
+						target, _ := a.Fn.(*ssa.Function)
+						var recv ssa.Value
+						if target != nil && strings.HasPrefix(target.Synthetic, "bound method wrapper") && len(a.Bindings) == 1 {
+							// x.M: the method M on the bound receiver
+							recv = a.Bindings[0]
+							var m *ssa.Function
+							for _, blk := range target.Blocks {
+								for _, in := range blk.Instrs {
+									if c, ok := in.(*ssa.Call); ok && c.Call.StaticCallee() != nil {
+										m = c.Call.StaticCallee()
+									}
+								}
+							}
+							target = m
+						}
+						te := ef.Funcs[target]
+						if target == nil || te == nil {
+							addUndec("a closure or method value without an in-module body is handed to " + cs.Callee.String())
+							continue
+						}
+						for _, u := range te.Undecided {
+							addUndec(u + " (via " + target.String() + ")")
+						}
+						for _, w := range te.Writes {
+							switch {
+							case w.Root.Kind == RParam && recv != nil && w.Root.Param == 0:
+								for _, r := range ef.Roots(recv) {
+									if r.Kind == RLocal || r.Kind == RNone {
+										continue
+									}
+									nw := w
+									nw.Root = r
+									nw.Via = append([]string{cs.Callee.String(), target.String()}, w.Via...)
+									add(nw)
+								}
+							case w.Root.Kind == RParam:
+								addUndec("the function value handed to " + cs.Callee.String() + " (" + target.String() + ") writes through an argument it is given there")
+							default:
+								nw := w
+								nw.Via = append([]string{cs.Callee.String(), target.String()}, w.Via...)
+								add(nw)
+							}
+						}
+					case *ssa.Function:
+						te := ef.Funcs[a]
+						if te == nil {
+							addUndec("a function without an in-module body is handed to " + cs.Callee.String())
+							continue
+						}
+						for _, u := range te.Undecided {
+							addUndec(u + " (via " + a.String() + ")")
+						}
+						for _, w := range te.Writes {
+							if w.Root.Kind == RParam {
+								addUndec("the function handed to " + cs.Callee.String() + " (" + a.String() + ") writes through an argument it is given there")
+								continue
+							}
+							nw := w
+							nw.Via = append([]string{cs.Callee.String(), a.String()}, w.Via...)
+							add(nw)
+						}
+					default:
+						addUndec("a function value of unknown origin is handed to " + cs.Callee.String() + ", which calls it")
+					}
+				}
+			}
 		case cs.Extern != "":
 			eff, ok := externEffect(cs.Instr.Common().StaticCallee())
 			if !ok {
@@ -720,6 +833,14 @@ func (ef *Effects) propagate(fn *ssa.Function) bool {
 					}
 					add(Write{Fn: fn, Pos: cs.Instr.Pos(), Root: r, Kind: "extern:" + cs.Extern, Instr: cs.Instr})
 				}
+			}
+		case cs.Dynamic && cs.ViaParam >= 0:
+			if fe.ParamCalls == nil {
+				fe.ParamCalls = map[int]bool{}
+			}
+			if !fe.ParamCalls[cs.ViaParam] {
+				fe.ParamCalls[cs.ViaParam] = true
+				changed = true
 			}
 		case cs.Dynamic:
 			if cs.Instr.Common().IsInvoke() && len(cs.Targets) == 0 {
@@ -747,6 +868,18 @@ func (ef *Effects) propagate(fn *ssa.Function) bool {
 			for _, t := range cs.Targets {
 				ce := ef.Funcs[t]
 				for _, w := range ce.Writes {
+					if t.Signature.Recv() != nil && !cs.Instr.Common().IsInvoke() && w.Root.Kind == RParam {
+						// a method reached as a method value: its receiver is bound in the function value, not among the
+						// call's arguments; what it writes through the receiver cannot be attributed here
+						if w.Root.Param == 0 {
+							addUndec("call through a function value that may be the method value of " + t.String() + ", which writes through its receiver")
+							continue
+						}
+						sw := w
+						sw.Root.Param--
+						mapWrite(cs, sw, t.String())
+						continue
+					}
 					mapWrite(cs, w, t.String())
 				}
 				for _, u := range ce.Undecided {
